@@ -39,6 +39,9 @@ checks = {
  "C07": dict(cat="model_checking", ref="DESIGN.md 4 C07",
    text="RunQ defines CTE references, derived tables and row-scoped subqueries by substitution; TLC checks on every document x query of the bounded families that the composed meaning equals explicit staged evaluation (materialise every CTE / derived table into the document, then run the outer query), that a select-list subquery contributes its standalone value on the row, and that EXISTS is true iff some nested element satisfies the predicate with the outer row's columns in scope; every case is replayed against the real library three ways - composed, staged (inner queries executed alone, results deep-copied into a plain document) and standalone subqueries - all compared with the exported result.",
    tech="TLA+ specification (Genql RunQ/BindCtes/Source/Ev sub, exists; Engine) model-checked with TLC; exported behaviours replayed composed, staged and standalone against the Go library"),
+ "C08": dict(cat="model_checking", ref="DESIGN.md 4 C08",
+   text="The specification's WHERE stage recurses into elements that are arrays (the whole query is applied inside) and projection passes inner dimensions through; TLC checks for every ragged depth-2 / depth-3 document x filter/projection query that the result is exactly 'the flat query inside every innermost array, nesting preserved' and that mix=> followed by one query is the concatenation; every case is replayed against the real library and, independently of the specification, the flat query is executed on each innermost array alone and compared part by part.",
+   tech="TLA+ specification (Genql StWhere recursion / Pipeline, Selector mix) model-checked with TLC; exported behaviours replayed; per-inner-array executions of the real engine compared"),
 }
 not_applicable = []
 m = {
